@@ -90,7 +90,7 @@ def guard_check(ck, fut):
             if x.get("why"):
                 st["outcomes_differ"] += 1
                 ck.failure(f"rewrite-xinclude-{x['handler']}", f"document split with XInclude ({x['handler']} handler, {x['source']}): {x['why']}; "
-                                                              f"{x['doc'][:300]!r}, expected {x['expected']}", {"job": {"seed": j["seed"]}, "case": x})
+                                                              f"{x['doc'][:300]!r}, included files {x.get('included')!r}, expected {x['expected']}", {"job": {"seed": j["seed"]}, "case": x})
         if j.get("skipped") or not j.get("universe") or not j.get("conv"):
             continue
         gterms = []
